@@ -1239,6 +1239,72 @@ fn gen_plan(w: &World, r: &mut Prng, prop: &str) -> Plan {
     }
 }
 
+/// Model-free probe: OPEN / OPENDIR / CREATE served on several threads at once must hand out
+/// pairwise distinct handle numbers, and every handle must be releasable exactly once (a number
+/// handed out twice closes the first descriptor behind the client).  Probabilistic.
+fn concurrent_open_probe(out: &mut Out, root: PathBuf, prop: &str, threads: usize, rounds: usize) {
+    use std::sync::{Arc, Barrier, Mutex};
+    std::fs::create_dir_all(&root).unwrap();
+    std::fs::write(root.join("f"), b"x").unwrap();
+    let fcfg = Config { root_dir: root.to_str().unwrap().to_string(), cache_policy: CachePolicy::Always, ..Default::default() };
+    let fs = Arc::new(PassthroughFs::<()>::new(fcfg).unwrap());
+    fs.init(FsOptions::empty()).unwrap();
+    let ctx = Context::default();
+    let ino = fs.lookup(&ctx, 1, &cstr("f")).unwrap().inode;
+    let bad: Arc<Mutex<Vec<String>>> = Arc::new(Mutex::new(vec![]));
+    for _ in 0..rounds {
+        let bar = Arc::new(Barrier::new(threads));
+        let got: Arc<Mutex<Vec<(u64, bool)>>> = Arc::new(Mutex::new(vec![]));
+        let mut js = vec![];
+        for t in 0..threads {
+            let (fs, bar, got) = (fs.clone(), bar.clone(), got.clone());
+            js.push(std::thread::spawn(move || {
+                let ctx = Context::default();
+                bar.wait();
+                for k in 0..8 {
+                    let dir = (t + k) % 3 == 0;
+                    let r = if dir { fs.opendir(&ctx, 1, libc::O_RDONLY as u32).map(|x| x.0) } else { fs.open(&ctx, ino, libc::O_RDONLY as u32, 0).map(|x| x.0) };
+                    if let Ok(Some(h)) = r {
+                        got.lock().unwrap().push((h, dir));
+                    }
+                }
+            }));
+        }
+        for j in js {
+            let _ = j.join();
+        }
+        let hs = got.lock().unwrap().clone();
+        let mut seen = BTreeSet::new();
+        for (h, _) in &hs {
+            if !seen.insert(*h) {
+                bad.lock().unwrap().push(format!("handle {} handed out twice while both are open", h));
+            }
+        }
+        for (h, dir) in hs {
+            let r = if dir { fs.releasedir(&ctx, 1, 0, h) } else { fs.release(&ctx, ino, 0, h, false, false, None) };
+            if let Err(e) = r {
+                if seen.remove(&h) {
+                    bad.lock().unwrap().push(format!("release of handle {} answers {}", h, errno_of(&e)));
+                }
+            }
+        }
+        if bad.lock().unwrap().len() > 3 {
+            break;
+        }
+    }
+    out.stat("probe:concurrent-open");
+    let b = bad.lock().unwrap();
+    if !b.is_empty() {
+        let line = format!("probe=concurrent-open threads={} rounds={}", threads, rounds);
+        for p in ["C15", "C08"] {
+            if p == prop || prop == "all" {
+                oracle(out, p, &format!("{}:concurrent-open:handle-not-unique", p), &line, &b.join(" | "));
+            }
+        }
+    }
+    let _ = std::fs::remove_dir_all(&root);
+}
+
 fn main() {
     let a = args();
     let mut out = Out::new(a.get("out").map(|s| s.as_str()).unwrap_or("/verif/.work/ptrefs"));
@@ -1343,6 +1409,9 @@ fn main() {
                 }
             }
         }
+    }
+    if prop == "C15" || prop == "all" {
+        concurrent_open_probe(&mut out, tmp.join("conc-open"), &prop, 8, 400);
     }
     out.finish();
     let _ = std::fs::remove_dir_all(&tmp);
